@@ -398,6 +398,7 @@ pub fn step_name(s: &Step) -> &'static str {
         Step::ReadGrad { .. } => "read-gradient",
         Step::ClearGrad { .. } => "clear-gradient",
         Step::Update { .. } => "update",
+        Step::ProbeSole { .. } => "probe-sole-owner",
     }
 }
 
